@@ -80,6 +80,32 @@ def _module_dict(name, module, fn):
     return None
 
 
+def _local_dict(name, fn):
+    """The constant dict literal a local name is bound to, when that is its only binding and nothing changes the dict afterwards."""
+    found = None
+    plain = {}
+    for n in ast.walk(fn):
+        if isinstance(n, ast.Assign) and len(n.targets) == 1 and isinstance(n.targets[0], ast.Name):
+            plain[id(n.targets[0])] = n.value
+    for n in ast.walk(fn):
+        if isinstance(n, ast.Name) and n.id == name and isinstance(n.ctx, (ast.Store, ast.Del)):
+            if found is not None or id(n) not in plain:
+                return None
+            found = plain[id(n)]
+        elif isinstance(n, (ast.Subscript, ast.Attribute)) and isinstance(n.ctx, (ast.Store, ast.Del)) and isinstance(n.value, ast.Name) and n.value.id == name:
+            return None
+        elif isinstance(n, ast.Call) and isinstance(n.func, ast.Attribute) and isinstance(n.func.value, ast.Name) and n.func.value.id == name \
+                and n.func.attr not in ('keys', 'values', 'items', 'get'):
+            return None
+        elif isinstance(n, ast.arg) and n.arg == name:
+            return None
+        elif isinstance(n, (ast.Global, ast.Nonlocal)) and name in n.names:
+            return None
+    if isinstance(found, ast.Dict) and found.keys and _const_container(found) and all(k is not None for k in found.keys):
+        return found
+    return None
+
+
 def _dict_rows(it, ntargets, module, fn):
     """rows for `for k in D`, `for k in D.keys()`, `for v in D.values()`, `for k, v in D.items()` with D a module-level constant dict."""
     how = 'keys'
@@ -90,6 +116,8 @@ def _dict_rows(it, ntargets, module, fn):
     if not isinstance(base, ast.Name):
         return None
     d = _module_dict(base.id, module, fn)
+    if d is None:
+        d = _local_dict(base.id, fn)
     if d is None:
         return None
     if how == 'keys' and ntargets == 1:
@@ -136,6 +164,8 @@ class _Fold(ast.NodeTransformer):
         self.generic_visit(n)
         if isinstance(n.ctx, ast.Load) and isinstance(n.value, ast.Name) and isinstance(n.slice, ast.Constant):
             d = _module_dict(n.value.id, self.module, self.fn)
+            if d is None:
+                d = _local_dict(n.value.id, self.fn)
             if d is not None:
                 for k, v in zip(d.keys, d.values):
                     if isinstance(k, ast.Constant) and k.value == n.slice.value and type(k.value) is type(n.slice.value):
@@ -248,6 +278,61 @@ def _scalarise_local_dicts(fn):
     return True
 
 
+def _list_then_unpack(fn):
+    """xs = list(); ...; xs.append(e1); ...; xs.append(ek); ...; a1, .., ak = xs      (all at the top level of one block, xs used
+    nowhere else)      ->      a1 = e1; ...; ak = ek.     The targets must not occur between the first append and the unpacking."""
+    changed = False
+    for owner in ast.walk(fn):
+        for fld in ('body', 'orelse', 'finalbody'):
+            body = getattr(owner, fld, None)
+            if not (isinstance(body, list) and body and isinstance(body[0], ast.stmt)) or isinstance(owner, ast.Lambda):
+                continue
+            for i, st in enumerate(body):
+                if not (isinstance(st, ast.Assign) and len(st.targets) == 1 and isinstance(st.targets[0], ast.Name)
+                        and ((isinstance(st.value, ast.Call) and isinstance(st.value.func, ast.Name) and st.value.func.id == 'list' and not st.value.args
+                              and not st.value.keywords) or (isinstance(st.value, ast.List) and not st.value.elts))):
+                    continue
+                xs = st.targets[0].id
+                apps = []
+                unpack = None
+                okay = True
+                for j in range(i + 1, len(body)):
+                    b = body[j]
+                    if isinstance(b, ast.Expr) and isinstance(b.value, ast.Call) and isinstance(b.value.func, ast.Attribute) and b.value.func.attr == 'append' \
+                            and isinstance(b.value.func.value, ast.Name) and b.value.func.value.id == xs and len(b.value.args) == 1 and not b.value.keywords \
+                            and not any(isinstance(x, ast.Name) and x.id == xs for x in ast.walk(b.value.args[0])):
+                        apps.append(j)
+                        continue
+                    if isinstance(b, ast.Assign) and len(b.targets) == 1 and isinstance(b.targets[0], (ast.Tuple, ast.List)) and isinstance(b.value, ast.Name) \
+                            and b.value.id == xs and all(isinstance(e, ast.Name) for e in b.targets[0].elts):
+                        unpack = j
+                        break
+                    if any(isinstance(x, ast.Name) and x.id == xs for x in ast.walk(b)):
+                        okay = False
+                        break
+                if not okay or unpack is None or not apps or len(apps) != len(body[unpack].targets[0].elts):
+                    continue
+                total = sum(1 for x in ast.walk(fn) if isinstance(x, ast.Name) and x.id == xs)
+                if total != 2 + len(apps):
+                    continue
+                names = [e.id for e in body[unpack].targets[0].elts]
+                if len(set(names)) != len(names):
+                    continue
+                span = body[apps[0]:unpack]
+                if any(isinstance(x, ast.Name) and x.id in names for b in span for x in ast.walk(b)):
+                    continue
+                for nm, j in zip(names, apps):
+                    new = ast.Assign(targets=[ast.Name(id=nm, ctx=ast.Store())], value=body[j].value.args[0])
+                    ast.copy_location(new, body[j])
+                    ast.fix_missing_locations(new)
+                    body[j] = new
+                del body[unpack]
+                del body[i]
+                changed = True
+                break
+    return changed
+
+
 def partial_eval(fn, module):
     """After unrolling: fold what became constant, split literal tuple assignments, scalarise dict-of-variables.  In place."""
     link_parents(fn)
@@ -259,6 +344,9 @@ def partial_eval(fn, module):
         link_parents(fn)
         sc = _scalarise_local_dicts(fn)
         link_parents(fn)
+        if _list_then_unpack(fn):
+            sc = True
+            link_parents(fn)
         if not (f.changed or ch or sc):
             break
         n += 1
